@@ -143,6 +143,39 @@ pub fn run(a: &Args, rep: &mut Report) {
             mon::tick()
         }
     }
+    // dense containers: long runs of one-byte items whose rendering is many times longer than
+    // their encoding (undefined, simple(n), null, false, -24, h'', ""), flat, as map pairs, nested
+    // and behind tags: no output budget proportional to the input may cut them short
+    {
+        let leaves = [Item::Simple { w: 0, v: 23 }, Item::Simple { w: 0, v: 19 }, Item::Simple { w: 0, v: 0 }, Item::Simple { w: 0, v: 22 }, Item::Simple { w: 0, v: 20 }, Item::NInt { w: 0, v: 23 }, Item::Bytes { w: 0, v: vec![] }, Item::Text { w: 0, v: vec![] }, Item::Simple { w: 1, v: 255 }, Item::F16(0xfc00)];
+        let counts: Vec<usize> = (0..=70).chain([100, 255, 256, 257, 1000, 5000]).collect();
+        let mut k = 0u64;
+        for (li, leaf) in leaves.iter().enumerate() {
+            for &n in &counts {
+                k += 1;
+                if !a.mine(k) {
+                    continue;
+                }
+                let other = &leaves[(li + 1) % leaves.len()];
+                let run: Vec<Item> = (0..n).map(|_| leaf.clone()).collect();
+                let mixed: Vec<Item> = (0..n).map(|j| if j % 2 == 0 { leaf.clone() } else { other.clone() }).collect();
+                let pairs: Vec<(Item, Item)> = (0..n / 2).map(|_| (leaf.clone(), other.clone())).collect();
+                let shapes = vec![
+                    Item::Array { w: Some(if n < 24 { 0 } else if n < 256 { 1 } else { 2 }), items: run.clone() },
+                    Item::Array { w: None, items: run.clone() },
+                    Item::Array { w: None, items: mixed.clone() },
+                    Item::Map { w: Some(if n / 2 < 24 { 0 } else if n / 2 < 256 { 1 } else { 2 }), items: pairs.clone() },
+                    Item::Map { w: None, items: pairs.clone() },
+                    Item::Tag { w: 2, v: 55799, inner: Box::new(Item::Array { w: Some(0), items: vec![Item::Array { w: None, items: run.clone() }, Item::Array { w: Some(if n < 24 { 0 } else if n < 256 { 1 } else { 2 }), items: mixed }] }) },
+                ];
+                for it in &shapes {
+                    rep.seen(fnv64(&it.encode()));
+                    check_exact(rep, it);
+                }
+                rep.count("dense containers of one-byte items rendered exactly");
+            }
+        }
+    }
     // all halves, simple values (rendering of floats and simple(n))
     for h in (0..=0xffffu32).filter(|h| a.mine(*h as u64)) {
         if !vcore::refnum::is_nan16(h as u16) {
